@@ -160,6 +160,16 @@ type Query {
         except BaseException as e:
             return {"__raised__": repr(e)}, q
 
+    def run_merged_fragment(self):
+        """the same named fragment (with a query-side directive inside) spread under two selections of one response key:
+        the merged field is executed once, its directives wrap once"""
+        q = "{ items { ...F } items { ...F } }  fragment F on I { n%s }" % ((" @tq(n: 1)" if self.cfg["q"] >= 1 else "") + (" @tr(n: 2)" if self.cfg["q"] >= 2 else ""))
+        self.log = []
+        try:
+            return main_loop().run(self.eng.execute(q)), q
+        except BaseException as e:
+            return {"__raised__": repr(e)}, q
+
     def run(self, kind):
         q, variables, field = self.requests[kind]
         self.log = []
@@ -224,6 +234,15 @@ def job(j):
                 mm.append("merged field nodes: data %r expected %r" % (got, want))
         if mm and len(st["viol"]) < 400:
             genrun.add_viol(st["viol"], ({"kind": "directive-mismatch", "request": "merged", "hookless_directives_interleaved": hetero, "first": mm[0][:120]}, {"cfg": c, "sdl": w.sdl, "request": q, "mismatches": mm}))
+        # the fragment form of the merged request: both query-side directives sit on the one field node of the fragment
+        st["n"] += 1
+        respf, qf = w.run_merged_fragment()
+        wantf = rec["expect"]["object"]["data"].replace("r(v)", "%s") if False else None
+        single, _q1 = main_loop().run(w.eng.execute("{ items { n%s } }" % ((" @tq(n: 1)" if c["q"] >= 1 else "") + (" @tr(n: 2)" if c["q"] >= 2 else "")))), None
+        if respf != single:
+            genrun.add_viol(st["viol"], ({"kind": "directive-mismatch", "request": "merged-fragment", "hookless_directives_interleaved": hetero,
+                                          "first": ("a fragment spread under two selections of one response key answers %r, the field selected once answers %r" % (respf, single))[:160]},
+                                         {"cfg": c, "sdl": w.sdl, "request": qf}))
         if len(st["samples"]) < 1 and all(v == 2 for v in c.values()) and hetero:
             st["samples"].append({"cfg": c, "requests": {k: v[0] for k, v in w.requests.items()}, "expected": {k: {"arg": e["arg"], "data": e["data"]} for k, e in rec["expect"].items()}})
 
